@@ -40,12 +40,16 @@ def get_angle_spec_from_float(angle: float, tol: float = 1e-4) -> List[Tuple[int
     """
     angle %= 2 * np.pi
     rest = angle / np.pi
+    if rest >= 2:
+        # For tiny negative angles, `angle % (2 * pi)` rounds to 2 * pi itself
+        rest = 0.0
 
     # Max value of `n`
     n_max = 2**IMMEDIATE_BITS - 1
 
     nds = []
-    while rest > tol:
+    # `rest` is in units of pi, `tol` is a tolerance on the angle itself
+    while rest * np.pi > tol:
         # Find the largest `d` such that `rest <= n_max / 2 ^ d`
         d = int(np.floor(np.log2(n_max / rest)))
         # Find largest `n` such that `rest >= n / 2 ^ d`
@@ -61,5 +65,6 @@ def get_angle_spec_from_float(angle: float, tol: float = 1e-4) -> List[Tuple[int
         while (n_new % 2) == 0:
             n_new, d_new = (int(n_new / 2), d_new - 1)
         nds[i] = (n_new, d_new)
-    nds = [(n, d) for (n, d) in nds if d < 32]
+    # Keep every step whose exponent fits the 8-bit operand of a rotation instruction
+    nds = [(n, d) for (n, d) in nds if d < 2**IMMEDIATE_BITS]
     return nds
